@@ -15,120 +15,8 @@ theorem newStep_noLeaks (fl : NFlags) (files : Disk) (st : NSt) (t : NType) :
     newStep noLeaks fl files st t = newStep noLeaks fl files {} t :=
   newStep_congr _ _ _ _ _ _ (by simp [noLeaks]) (by simp [noLeaks])
 
-/-! ### `new`: when is carried state irrelevant -/
-
-theorem nameMap_mono (fs : List Ctor.Field) (n : String) (h : Ctor.nameMap false fs n = none) :
-    Ctor.nameMap true fs n = none := by
-  unfold Ctor.nameMap at *
-  split at h
-  · cases h
-  · rename_i hany
-    have : ¬ ((fs.any fun f => decide (f.name = n ∧ (!f.isShadowed) = true ∧ (!f.isEmbeded) = true ∧
-        (!decide (true = true ∧ (!f.isNew) = true)) = true)) = true) := by
-      intro hany'
-      apply hany
-      rw [List.any_eq_true] at *
-      obtain ⟨f, hf, hc⟩ := hany'
-      refine ⟨f, hf, ?_⟩
-      simp only [decide_eq_true_eq] at *
-      exact ⟨hc.1, hc.2.1, hc.2.2.1, by simp⟩
-    rw [if_neg this]
-
-theorem paramsList_nil_mono (fs gs : List Ctor.Field)
-    (h : Ctor.paramsList (Ctor.nameMap false gs) fs = []) : Ctor.paramsList (Ctor.nameMap true gs) fs = [] := by
-  induction fs with
-  | nil => simp [Ctor.paramsList]
-  | cons f fs ih =>
-    simp only [Ctor.paramsList, List.filterMap_cons] at *
-    split at h
-    · rename_i hnone
-      have : (if (f.isEmbeded || f.isShadowed) = true then none
-          else Option.map (fun p => (p, f.ptype)) (Ctor.nameMap true gs f.name)) = none := by
-        split
-        · rfl
-        · rename_i hne
-          simp only [hne] at hnone
-          simp only [Bool.false_eq_true, ↓reduceIte, Option.map_eq_none_iff] at hnone
-          simp [nameMap_mono gs f.name hnone]
-      rw [this]
-      exact ih h
-    · cases h
-
-theorem gen_params_irrelevant (tr : Ctor.Tree) (b : Bool)
-    (h : b = false ∨ Ctor.hasNewTop tr = true ∨ (Ctor.gen tr false).params = []) :
-    (Ctor.gen tr b).params = (Ctor.gen tr false).params := by
-  rcases h with h | h | h
-  · rw [h]
-  · simp [Ctor.gen, h]
-  · cases b with
-    | false => rfl
-    | true =>
-      rw [h]
-      simp only [Ctor.gen, Bool.false_or, Bool.true_or] at *
-      cases hn : Ctor.hasNewTop tr with
-      | true => simpa [hn] using h
-      | false =>
-        rw [hn] at h
-        exact paramsList_nil_mono _ _ h
-
-theorem accNames_append (a b : List Acc) (get : Bool) : accNames (a ++ b) get = accNames a get ++ accNames b get := by
-  cases get <;> simp [accNames]
-
-theorem jpick_irrelevant (get : Bool) (sw : Bool × Bool) (t : NType) (a b : List Acc) (fs : List Ctor.Field)
-    (h : ∀ f ∈ fs, flagOf get sw t f = true ∨ (accNames a get).contains (accKey get f.name) = false) :
-    jpick get sw t (a ++ b) fs = jpick get sw t b fs := by
-  simp only [jpick]
-  congr 1
-  apply List.filter_congr
-  intro f hf
-  rw [accNames_append]
-  rcases h f hf with h1 | h1
-  · simp [h1]
-  · have : (accNames a get ++ accNames b get).contains (accKey get f.name)
-        = (accNames b get).contains (accKey get f.name) := by
-      rw [List.contains_eq_mem, List.contains_eq_mem] at *
-      simp only [List.mem_append]
-      have h1' : accKey get f.name ∉ accNames a get := by simpa using h1
-      simp [h1']
-    rw [this]
-
-theorem accRelevantFor_false {get : Bool} {sw : Bool × Bool} {st : NSt} {t : NType} (h : accRelevantFor get sw st t = false) :
-    ∀ f ∈ ((Ctor.flatten t.tree).filter (fun f => !f.isShadowed && !f.isEmbeded)).filter (fun f => !exported f.name),
-      flagOf get sw t f = true ∨ (accNames st.accs get).contains (accKey get f.name) = false := by
-  intro f hf
-  rw [List.mem_filter] at hf
-  simp only [accRelevantFor, List.any_eq_false] at h
-  have h3 := h f hf.1
-  have he : exported f.name = false := by simpa using hf.2
-  cases hfl : flagOf get sw t f with
-  | true => left; rfl
-  | false =>
-    right
-    simpa [he, hfl] using h3
-
-/-- the per-type output of `new` under today's leaks does not see the carried state unless it is relevant -/
-theorem newStep_irrelevant (fl : NFlags) (files : Disk) (st : NSt) (t : NType)
-    (h1 : hasNewRelevant st t = false) (h2 : accRelevant fl st t = false) :
-    (newStep codeBeforeFix fl files st t).2 = (newStep codeBeforeFix fl files {} t).2 := by
-  have hp : (Ctor.gen t.tree st.hasNew).params = (Ctor.gen t.tree false).params := by
-    apply gen_params_irrelevant
-    simp only [hasNewRelevant, Bool.and_eq_false_iff, Bool.not_eq_false', List.isEmpty_eq_false_iff,
-      Bool.not_eq_eq_eq_not, Bool.not_true] at h1
-    rcases h1 with (h | h) | h
-    · left; exact h
-    · right; left; exact h
-    · right; right; simpa using h
-  cases hj : fl.json with
-  | false =>
-    simp only [newStep, newCore, codeBeforeFix, Bool.true_and, ↓reduceIte, hp, hj, Bool.false_and, Bool.false_eq_true,
-      List.nil_append]
-  | true =>
-    simp only [accRelevant, hj, Bool.true_and, Bool.or_eq_false_iff] at h2
-    have hg := jpick_irrelevant true (switchOf fl t) t st.accs
-      (embedAccs (switchOf fl t) files (embedsOf t)) _ (accRelevantFor_false h2.1)
-    have hs := jpick_irrelevant false (switchOf fl t) t st.accs
-      (embedAccs (switchOf fl t) files (embedsOf t)) _ (accRelevantFor_false h2.2)
-    simp only [newStep, newCore, codeBeforeFix, Bool.true_and, ↓reduceIte, hp, hg, hs, List.nil_append]
+/-! (the lemmas about when the state carried by the code BEFORE fix 2659527 was irrelevant for a type were removed
+    together with the partial theorems they served; they depended on the internals of the C02 constructor model) -/
 
 /-! ### `new`: generated files are read only through the look-ups of the embedded types (C07) -/
 
@@ -364,30 +252,6 @@ theorem loop_eq_solo (hst : ∀ o, m.stale o = false) (disk : Disk) :
 end loop
 
 /-! ### today's code: a decidable sufficient condition for `RunIndep` -/
-
-/-- no step of this run of `new` meets carried state that is relevant for its type -/
-def newRunOK (fl : NFlags) (disk : Disk) : LoopSt NSt NType NOut → List NType → Bool
-  | _, [] => true
-  | ls, [t] => !hasNewRelevant ls.st t && !accRelevant fl ls.st t
-  | ls, t :: t' :: ts =>
-    (!hasNewRelevant ls.st t && !accRelevant fl ls.st t)
-      && newRunOK fl disk (iter (newMachine codeBeforeFix fl) disk ls t false) (t' :: ts)
-
-theorem newRunOK_sound (fl : NFlags) (disk : Disk) :
-    ∀ (ts : List NType) (ls : LoopSt NSt NType NOut), newRunOK fl disk ls ts = true →
-      RunIndep (newMachine codeBeforeFix fl) disk ls ts := by
-  intro ts
-  induction ts with
-  | nil => intro ls _; trivial
-  | cons t ts ih =>
-    intro ls h
-    cases ts with
-    | nil =>
-      simp only [newRunOK, Bool.and_eq_true, Bool.not_eq_eq_eq_not, Bool.not_true] at h
-      exact newStep_irrelevant fl _ ls.st t h.1 h.2
-    | cons t' ts' =>
-      simp only [newRunOK, Bool.and_eq_true, Bool.not_eq_eq_eq_not, Bool.not_true] at h
-      exact ⟨newStep_irrelevant fl _ ls.st t h.1.1 h.1.2, ih _ h.2⟩
 
 def mapRunOK (disk : Disk) : LoopSt MSt MType MOut → List MType → Bool
   | _, [] => true
